@@ -111,6 +111,25 @@ def property_checks(p):
                 bad_shift += 1
             if not numpy.array_equal(s._scrn[1:], full_before[:-1]) or s._scrn.shape != full_before.shape:
                 bad_shift += 1
+        if i == 0:
+            # frames handed out by add_row() / .scrn and kept WITHOUT copying stay what they were (the history is a list of such frames)
+            kept, copies = [], []
+            for t in range(4):
+                fr_ = s.add_row(); kept.append(fr_); copies.append(numpy.array(fr_, copy=True))
+                kept.append(s.scrn); copies.append(numpy.array(s.scrn, copy=True))
+            A(("frames kept without copying are not overwritten by later rows", float(sum(0 if numpy.array_equal(a_, b_) else 1 for a_, b_ in zip(kept, copies))), 0.0))
+            # a copied (copy.deepcopy) and a pickled-and-restored screen are the same screen: same exposed shape and contents,
+            # and -- the generator state being part of the copy -- the same next rows as the original
+            import copy as _copy
+            sp_ = ic.make_screen(p["kind"], p["nx"], p["ps"], p["r0"], p["L0"], p["extra"], 4321 + int(p["data_seed"]) % 1000)
+            sp_.add_row(); sp_.add_row()
+            clones = [("deepcopy", _copy.deepcopy(sp_)), ("pickle", pickle.loads(pickle.dumps(sp_)))]
+            nxt = [numpy.array(sp_.add_row(), copy=True) for _ in range(3)]
+            for cname, c_ in clones:
+                ok_shape = numpy.asarray(c_.scrn).shape == (N, N)
+                rows_c = [numpy.array(c_.add_row(), copy=True) for _ in range(3)]
+                same_rows = ok_shape and all(a_.shape == b_.shape and numpy.array_equal(a_, b_) for a_, b_ in zip(rows_c, nxt))
+                A(("a %s of a screen keeps the requested shape and continues with the same rows as the original" % cname, 0.0 if same_rows else 1.0, 0.0))
         A(("exposed screen keeps the requested shape%s" % tag, float(bad_shape), 0.0))
         A(("only finite values%s" % tag, float(bad_finite), 0.0))
         A(("previous screen shifted down by exactly one row, nothing else changes%s" % tag, float(bad_shift), 0.0))
